@@ -39,6 +39,7 @@ func ledgerCfg(invariants string) string {
   NZero <- BZero
   Contracts = {%s}
   TokenContract = "%s"
+  StrictFifo = TRUE
   TraceFile = "trace.ndjson"
 INIT TInit
 NEXT TNext
@@ -98,7 +99,8 @@ func validateLedgerRuns(runs []ledgerRun, invariants string) (verdicts []ledgerV
 		}
 		states += res.Distinct
 		if res.Err != "" && res.Violated == "" && rejectedAt == 0 {
-			os.WriteFile("/tmp/ledger_fail.ndjson", buf.Bytes(), 0o644); return nil, states, fmt.Errorf("TLC error during trace validation: %s (tail: %s)", res.Err, strings.Join(res.Tail, " | "))
+			os.WriteFile("/tmp/ledger_fail.ndjson", buf.Bytes(), 0o644)
+			return nil, states, fmt.Errorf("TLC error during trace validation: %s (tail: %s)", res.Err, strings.Join(res.Tail, " | "))
 		}
 		if res.Violated == "" && rejectedAt == 0 {
 			return verdicts, states, nil // all accepted
